@@ -620,6 +620,18 @@ class Ctx:
         return self._model
 
 
+def _raised_in_repo(exc):
+    """was the exception raised by the code under test (and not by the harness touching a renamed internal)?"""
+    import os
+    repo = os.environ.get("VERIF_REPO", "/repo")
+    tb = exc.__traceback__
+    last = None
+    while tb is not None:
+        last = tb
+        tb = tb.tb_next
+    return last is not None and last.tb_frame.f_code.co_filename.startswith(repo + "/")
+
+
 def _short(info):
     if info is None:
         return None
@@ -723,7 +735,7 @@ def explore(fn, kwargs=None, prefixes=None, max_paths=100000, deadline=None, fro
                 ctx.unpatch()
                 rc = run_concrete(fn, {k: unjson(v) for k, v in a.items()}, kwargs)
                 validated += 1
-                if rc.error is not None and type(rc.error) is type(e):
+                if rc.error is not None and type(rc.error) is type(e) and _raised_in_repo(rc.error):
                     confirmed[lab] = dict(label=lab, assign=a, info=None, decisions=len(ctx.decisions), count=1,
                                           concrete_info="%r\n%s" % (rc.error, tb[-1200:]))
                 else:
@@ -747,7 +759,7 @@ def explore(fn, kwargs=None, prefixes=None, max_paths=100000, deadline=None, fro
             if any(l == lab for l, _ in rc.failed):
                 cand = dict(cand, count=1, concrete_info=_short([i for l, i in rc.failed if l == lab][0]))
                 confirmed[lab] = cand
-            elif rc.error is not None:
+            elif rc.error is not None and _raised_in_repo(rc.error):
                 cand = dict(cand, count=1, concrete_info="concrete run raised %r" % (rc.error,))
                 confirmed[lab] = cand
             elif ctx.unknown_here:
